@@ -47,7 +47,7 @@ var (
 	txs        []*types.Transaction // a1 a2 a3 b1 b2 g
 	txName     = []string{"a1", "a2(exp h3)", "a3(exp T)", "b1", "b2", "g(B+A)"}
 	groupParts []*types.Transaction
-	universe   [][]byte // hashes every lookup is tried with (set per harness)
+	universe   [][]byte // hashes of the main universe
 	colliders  []*types.Transaction
 	idOf       = map[string]string{} // hash -> short name
 	blocks     []*types.Block
@@ -166,6 +166,7 @@ func getEnv() *env {
 type sys struct {
 	e   *env
 	mem *mempool.Mempool
+	uni [][]byte // hashes every lookup is tried with
 }
 
 func newSys() *sys {
@@ -176,7 +177,7 @@ func newSys() *sys {
 	mem.SetQueueCache(mempool.NewSimpleQueue(mempool.SubConfig{PoolCacheSize: int64(capPool), ProperFee: 100000}))
 	mempool.V21Attach(mem, e.cli)
 	mempool.V21SetHeader(mem, 0, tExp-20)
-	return &sys{e: e, mem: mem}
+	return &sys{e: e, mem: mem, uni: universe}
 }
 
 const (
@@ -236,8 +237,7 @@ func main() {
 	mk := func(c pc) *vx.Seq[*sys] {
 		capPool, capSender, capLast = c.pool, c.sender, c.last
 		q := &vx.Seq[*sys]{Run: r, Name: fmt.Sprintf("cap%d-sender%d-last%d", c.pool, c.sender, c.last), NumOps: numOps, MaxDepth: r.Pick(6, 14), Workers: runtime.NumCPU(), OpName: opName}
-		main := universe
-		q.New = func() *sys { universe = main; return newSys() }
+		q.New = newSys
 		q.Close = func(s *sys) {
 			select {
 			case envFree <- s.e:
@@ -259,6 +259,7 @@ func main() {
 		json.Unmarshal(raw, &c)
 		var f string
 		if c.Harness == "collide" {
+			capPool, capSender, capLast = 3, 2, 2
 			f = cq.ReplayHist(c.Hist)
 		} else {
 			var k pc
@@ -277,6 +278,7 @@ func main() {
 		mk(c).Explore()
 	}
 	if colliders != nil {
+		capPool, capSender, capLast = 3, 2, 2
 		cq.Explore()
 	}
 	r.Floors["outcomes"] = 14
@@ -471,7 +473,7 @@ func check(s *sys) string {
 	// share a short hash (the "collide" harness forces that): the short lookup then has to return
 	// some pool transaction with that short hash, and nothing when the pool holds none.
 	var long, short []string
-	uni := universe
+	uni := s.uni
 	for _, h := range uni {
 		long = append(long, string(h))
 		short = append(short, types.CalcTxShortHash(h))
@@ -553,9 +555,9 @@ func mkCollide(r *vx.Run) *vx.Seq[*sys] {
 		return "AddBlock(h1;c1)"
 	}
 	q.New = func() *sys {
-		capPool, capSender, capLast = 3, 2, 2
-		universe = [][]byte{u[0].Hash(), u[1].Hash(), u[2].Hash()}
-		return newSys()
+		s := newSys()
+		s.uni = [][]byte{u[0].Hash(), u[1].Hash(), u[2].Hash()}
+		return s
 	}
 	q.Close = func(s *sys) {
 		select {
